@@ -55,6 +55,8 @@ func collParseElem(s string) r.Element {
 			panic("bad elem token " + s)
 		}
 		return value.NewString(string(b))
+	case 'z':
+		return value.NewNull()
 	}
 	panic("bad elem token " + s)
 }
